@@ -17,6 +17,19 @@ CHECKS = {
                 "(profile sweep) is excluded by its exact input class.",
         "design": "3 C19",
     },
+    "C16": {
+        "text": "Bounded symbolic verification: for EVERY operator string over {M,=,X,I,D,N,S,H} with SAM-valid clipping up to "
+                "length 5 (quick) / 7 (thorough) the real get_read_blocks is executed with all operation lengths and the "
+                "reference start symbolic and z3 proves equality with an independent fold of the SAM specification "
+                "(exons 1-based closed, read blocks, ordering); move_ref_coord_alogn_alignment is proved against a per-operation "
+                "position formula in both directions; polyA/polyT exon trimming (add_polya_info, correct_read_info, "
+                "shift_polya/polyt) is proved non-empty/ordered/position-preserving for <=3 (quick) / <=5 (thorough) exons "
+                "with all coordinates and tail positions symbolic.",
+        "note": "Trusted: z3, symx proxies, CPython. Stub: PolyAFinder.detect_polya returns arbitrary positions within its "
+                "documented contract (internal tails on an exon, external tails in/beyond the terminal exon). Operator strings "
+                "beyond the bound, the tail scanner's string windows and pysam's CIGAR decoding are outside the claim.",
+        "design": "3 C16",
+    },
 }
 
 NOT_BUILT = "check not built yet (build in progress, see DESIGN.md section 5); no claim is made"
